@@ -1047,7 +1047,7 @@ pub fn run(ctx: &Ctx) -> i32 {
     });
     let ev = Evidence {
         level: "fault_enumeration",
-        rule: "Seeded UCI scripts (uci/isready/ucinewgame/position/go depth<=2/blank/unknown/undecodable lines, CRLF and padding, quit present/absent/not last); for each script every byte offset 0..=len is a crash point 'input ends here' (truncated position/go commands are outside the property and skipped; scripts that run searches enumerate all line boundaries +-1 and a seeded third of the other offsets), plus one transient read error, plus two runs in which every 1st-3rd read() is first interrupted by a signal (EINTR: must be invisible, judged like an undisturbed run). Scripts that search are also run whole with and without their blank/unknown/undecodable lines: the answers must be the same. Heavy scripts sometimes contain `go infinite` / `go depth 64` / bare `go` on a position without legal moves (which ends by itself). One script in eight is a bulk script: 300-1500 handshake/blank/unknown/undecodable lines (several KiB) delivered in one read or in 512 B-64 KiB blocks, run whole, at four seeded cuts and with EINTR. A case is (script shape, cut, read-error position); all are non-trivial (each runs one simulated engine process to termination). Unknown lines include lines starting with characters tools treat specially (#, ;, //, quotes, >, !, @, %, -, [, {, <, $).".into(),
+        rule: "Seeded UCI scripts (uci/isready/ucinewgame/position/go depth<=2/blank/unknown/undecodable lines, CRLF and padding, quit present/absent/not last); for each script every byte offset 0..=len is a crash point 'input ends here' (truncated position/go commands are outside the property and skipped; scripts that run searches enumerate all line boundaries +-1 and a seeded third of the other offsets), plus one transient read error, plus two runs in which every 1st-3rd read() is first interrupted by a signal (EINTR: must be invisible, judged like an undisturbed run). Scripts that search are also run whole with and without their blank/unknown/undecodable lines: the answers must be the same. Heavy scripts sometimes contain `go infinite` / `go depth 64` / bare `go` on a position without legal moves (which ends by itself). One script in eight is a bulk script: 300-1500 handshake/blank/unknown/undecodable lines (several KiB) delivered in one read or in 512 B-64 KiB blocks, run whole, at four seeded cuts and with EINTR. A case is (script shape, cut, read-error position); all are non-trivial (each runs one simulated engine process to termination). Unknown lines include lines starting with characters tools treat specially (#, ;, //, quotes, >, !, @, %, -, [, {, <, $). With line-by-line delivery every output line is attributed to the input line read last: nothing may be written in response to a line that does not start with a UCI command word; info string lines next to answers are tolerated; one script in five switches debug on. A third of the heavy scripts end with a pondering block (go ponder ... stop/ponderhit; the answer may be held back), a quarter of the plain go lines are go movetime 0-20 on a virtual clock of 20 us per node; two scripts per quick batch are runs of 60 000-250 000 lines without a command (stack probe in the input path, and the real binary).".into(),
         extra: {
             let mut m = serde_json::Map::new();
             m.insert("real_binary_available".into(), json!(real_bin.is_some()));
